@@ -72,22 +72,29 @@ def gen_and_replay(rep, exe, w, cfg, part, nparts, stats, samples, lock):
     sm = []
     convert(out, out + '.txt', st, sm)
     os.unlink(out)
-    d = lib.run_driver(exe, ['replay', out + '.txt'], timeout=600)
+    # the same cases on every build of the library: default, and strict ISO C (its own strncasecmp / strnlen fallbacks)
+    runs = [(b, lib.run_driver(x, ['replay', out + '.txt'], timeout=600)) for b, x in (exe if isinstance(exe, list) else [('default', exe)])]
     os.unlink(out + '.txt')
     with lock:
         for k in st:
             stats[k] += st[k]
         if len(samples) < 4:
             samples.extend(sm[:1])
-    if d['rc'] != 0:
-        res['fail'] = dict(rc=d['rc'], stderr=d['stderr'].decode(errors='replace')[-3000:], stdout=d['stdout'].decode(errors='replace')[-600:])
-        return res
-    for ln in d['stdout'].decode().splitlines():
-        m = json.loads(ln)
-        if 'summary' in m:
-            res['summary'] = m
-        else:
-            res['mism'].append(m)
+    for b, d in runs:
+        if d['rc'] != 0:
+            res['fail'] = dict(build=b, rc=d['rc'], stderr=d['stderr'].decode(errors='replace')[-3000:], stdout=d['stdout'].decode(errors='replace')[-600:])
+            return res
+        for ln in d['stdout'].decode().splitlines():
+            m = json.loads(ln)
+            if 'summary' in m:
+                if res['summary'] is None:
+                    res['summary'] = m
+                else:
+                    for k in ('calls', 'mismatches'):
+                        res['summary'][k] += m[k]
+            else:
+                m['build'] = b
+                res['mism'].append(m)
     return res
 
 def validate(rep, path, label, par=2):
@@ -196,7 +203,8 @@ def run(pid, tier):
     calls = 0
     kinds = {}
     with concurrent.futures.ThreadPoolExecutor(max_workers=jobs_n) as ex:
-        futs = [(j, ex.submit(gen_and_replay, rep, exe, w, j[0], j[1], j[2], stats, samples, lock)) for j in gjobs]
+        exes = [('default', exe), ('iso', lib.build('drv_match', ['drv_match.c'], config='iso'))]
+        futs = [(j, ex.submit(gen_and_replay, rep, exes, w, j[0], j[1], j[2], stats, samples, lock)) for j in gjobs]
         for (cfg, p, n), fu in futs:
             res = fu.result()
             rep.add_tlc('GenMatch_%s:%d/%d' % (cfg, p, n), res['tlc'], 'case generation: header neighbourhood with demanded verdict and numbers per pattern')
